@@ -36,16 +36,16 @@ theorem run_in_language (sc : Scenario) (race : Bool) : holds sc (run repaired s
     | panic =>
       simp only at hout
       simp only [hout]
-      exact lemma_failed sc false .panic sc.metrics false hcond (by rw [hf])
+      exact lemma_failed sc false .panic sc.metrics true false hcond (by rw [hf])
     | err =>
       simp only at hout
       simp only [hout]
-      exact lemma_failed sc false .errStartup (sc.metrics && !repaired.b) sc.tracing hcond
+      exact lemma_failed sc false .errStartup (sc.metrics && !repaired.b) (!repaired.g) sc.tracing hcond
         (by rw [hf]; exact ⟨rfl, by simp [repaired], rfl⟩)
     | block =>
       simp only at hout
       simp only [hout]
-      exact lemma_failed sc false .errStartup (sc.metrics && !repaired.b) sc.tracing hcond
+      exact lemma_failed sc false .errStartup (sc.metrics && !repaired.b) (!repaired.g) sc.tracing hcond
         (by rw [hf]; exact ⟨rfl, by simp [repaired], rfl⟩)
   | none =>
     rw [hf] at hout
@@ -79,7 +79,7 @@ theorem run_in_language (sc : Scenario) (race : Bool) : holds sc (run repaired s
         simp [hf, hl]
       have hl' : (sc.listen != Listen.ok) = true := by simpa using hl
       simp only [hl', if_true]
-      exact lemma_failed sc false .errListen (sc.metrics && !repaired.b) sc.tracing hcond
+      exact lemma_failed sc false .errListen (sc.metrics && !repaired.b) (repaired.a && !repaired.g) sc.tracing hcond
         (by rw [hf]; exact ⟨rfl, by simp [repaired], rfl⟩)
 
 
@@ -149,13 +149,14 @@ theorem start_hooks_before_listener (sc : Scenario) (race : Bool) (i : Nat) (app
 
 /-- **… the first failure aborts startup leaving nothing running**: when an OnStart hook fails or the
     listen fails, no OnReady hook runs, `Start` does not return nil, and — unless a panicking OnStart
-    hook takes the process down — the server is not serving, the metrics server is closed again and
-    the tracer has flushed (exactly once, before `Start` returns). -/
+    hook takes the process down — the server is not serving, the metrics server is closed again, the
+    startup log buffer has been written out and the tracer has flushed (exactly once, before `Start`
+    returns). -/
 theorem failed_startup_clean (sc : Scenario) (race : Bool)
     (hf : sc.starts.any startFails = true ∨ sc.listen ≠ Listen.ok) :
     let o := run repaired sc race
     o.log.any isReady = false ∧ o.res ≠ .ok ∧
-    (o.res ≠ .panic → o.finApp = false ∧ o.finMet = false ∧
+    (o.res ≠ .panic → o.finApp = false ∧ (o.finMet = false ∧ o.finHeld = false) ∧
       (sc.tracing = true → o.log.count .flush = 1 ∧ precedes isFlush isRet o.log = true)) := by
   intro o
   obtain ⟨_, _, _, _, h5⟩ := lemma_unpack (run_in_language sc race)
@@ -172,7 +173,7 @@ theorem failed_startup_clean (sc : Scenario) (race : Bool)
   simp only [Bool.false_eq_true, if_false, failedStartOk, Bool.and_eq_true] at h5
   obtain ⟨h6, h7⟩ := h5
   have clean : ∀ {r : Res}, (o.res == r && !o.finApp && telemetryClean sc o) = true →
-      o.res = r ∧ o.finApp = false ∧ o.finMet = false ∧
+      o.res = r ∧ o.finApp = false ∧ (o.finMet = false ∧ o.finHeld = false) ∧
         (sc.tracing = true → o.log.count .flush = 1 ∧ precedes isFlush isRet o.log = true) := by
     intro r h
     simp only [Bool.and_eq_true, beq_iff_eq, Bool.not_eq_true', telemetryClean, Bool.or_eq_true] at h
@@ -403,7 +404,8 @@ example : (run repaired wFail false).log =
     [.startIn 0 false true false, .startOut 0, .startIn 1 false true false, .startOut 1,
      .startIn 2 false true false, .startOut 2,
      .flush, .ret] := by decide
-example : (run repaired wFail false).res = .errStartup ∧ (run repaired wFail false).finMet = false := by decide
+example : (run repaired wFail false).res = .errStartup ∧ (run repaired wFail false).finMet = false ∧
+    (run repaired wFail false).finHeld = false ∧ (run asShipped wFail false).finHeld = true := by decide
 
 /-- the independence theorem is not vacuous: the reload rounds of `wFull2` do leave traces in the log -/
 example : (run repaired wFull2 false).log ≠ (run repaired { wFull2 with rounds := [] } false).log := by decide
@@ -442,6 +444,22 @@ theorem asis_start_fail_leaks_metrics : holds wK09b (run asShipped wK09b false) 
 theorem asis_drain_timeout_skips_stop : holds wK09c (run asShipped wK09c false) = false := by decide
 theorem asis_reload_panic_escapes : holds wK09d (run asShipped wK09d false) = false := by decide
 theorem asis_expired_budget_skips_flush : holds wK09e (run asShipped wK09e false) = false := by decide
+
+/-- K09g: a failing OnStart hook; as shipped the startup log buffer is never written out -/
+def wK09g : Scenario :=
+  { metrics := false, tracing := false, listen := .ok, starts := [.err], readies := [], nReload := 0,
+    shuts := [], stops := [], reqs := [], rounds := [] }
+
+theorem asis_failed_start_keeps_logs_buffered :
+    holds wK09g (run asShipped wK09g false) = false ∧
+    holds wK09g (run { repaired with g := false } wK09g false) = false ∧
+    holds wK09g (run repaired wK09g false) = true := by decide
+
+/-- K09f: StartTLS with a key pair that cannot be loaded; as shipped the OnReady hook has run -/
+def wK09f : Scenario := { wK09a with listen := .cert }
+
+theorem asis_tls_cert_after_ready :
+    holds wK09f (run asShipped wK09f false) = false ∧ holds wK09f (run repaired wK09f false) = true := by decide
 
 theorem repaired_witnesses :
     holds wK09a (run repaired wK09a false) = true ∧ holds wK09b (run repaired wK09b false) = true ∧
